@@ -454,8 +454,11 @@ class DznJsonAst:
         self._ns_trail = NamespaceTree()
         self._file_contents = FileContents()
         root = parse_root(self.ast)
-        for element in root.elements:
-            self.parse_element(element, self._ns_trail)
+        try:
+            for element in root.elements:
+                self.parse_element(element, self._ns_trail)
+        except RecursionError as exc:
+            raise DznJsonError('process: elements are nested too deeply') from exc
         return self.file_contents
 
     def parse_element(self, element, parent_ns: NamespaceTree):
